@@ -100,3 +100,12 @@ CLAIMS["C14"] = {
     "note": "Needs the verif-tagged flush coordinator re-export to flush deterministically. Non-UTF-8 strings are outside this property's domain (see C15).",
     "technique": "property-based testing (rapid): round trip through the real encoder and decoder + differential against a reference decode; native go fuzzing",
 }
+
+CLAIMS["C01"] = {
+    "text": "(a) Concurrent pipeline: drawn configuration (1..4 parsers, 1..5 shards, queue 0..3, GOMAXPROCS 1/2/4/16, optional tag stage) and a stream of up to 40 datagrams of valid lines over colliding series (counters and timers with sample rates, sets, gauges; two sources) "
+            "is written by 1..3 feeder goroutines to real DatagramParser goroutines -> BackendHandler -> real MetricAggregators, while flush ticks are handed to a real MetricFlusher (owned ticker) at drawn positions without waiting for quiescence; after a parser barrier, cancel and join, and a final direct flush, "
+            "the sum over all flushed maps must equal the reference aggregate of the lines sent (counter sums of trunc(v/rate), timer value multisets, sampled-count sums, set members), nothing invented, no series twice or in two shards within one flush, a series always reported by the same aggregator, and no aggregator entered by two goroutines at once. "
+            "Part of the runs under the race detector. (b) Sequential shard history: a state machine over one real aggregator (ReceiveMap | Flush+Process+Reset) where each flush must report exactly the data received since the previous one. Exploration: schedules are sampled, not enumerated.",
+    "note": "The oracle is schedule independent (totals after a deterministic join). Flush ticks use a clock wrapper whose ticker channel is unbuffered and harness-owned, so a tick is an exact hand-off to the flusher goroutine. UDP reads are out of scope here (the property observes the parser input channel).",
+    "technique": "property-based testing (rapid) of the concurrent pipeline with a conservation oracle after a deterministic join + stateful model-based testing of one shard; race detector on a subset",
+}
